@@ -16,7 +16,7 @@ BUDGET = {"quick": 1400, "thorough": 40000}
 REQUIRED = ["feature:patch", "feature:zone", "feature:project_side", "feature:project_edge", "feature:project_corner",
             "feature:merge", "feature:default_patch", "feature:modify_patch", "feature:settings", "feature:delete",
             "feature:vtk", "feature:shape", "feature:graded", "judged:hex-entry", "judged:patch-quad", "judged:projected-face",
-            "judged:vtk-cell", "judged:geometry-entry", "kind:box", "kind:extrude", "kind:revolve", "kind:loft", "kind:taper", "judged:edgeGrading-slot", "feature:pre-history", "feature:delete-after-clear", "feature:far-origin-thin-gap"]
+            "judged:vtk-cell", "judged:geometry-entry", "kind:box", "kind:extrude", "kind:revolve", "kind:loft", "kind:taper", "judged:edgeGrading-slot", "feature:pre-history", "feature:delete-after-clear", "feature:far-origin-thin-gap", "judged:curved-edges-of-extrude/revolve-present"]
 MIN_KEYS = 40
 RULE = (
     "random programs: a touching lattice assembly of lofts (24 orientations) + 0-3 disjoint Box / Extrude / Revolve + "
@@ -178,7 +178,7 @@ def gen_case(ctx):
         settings["verbose"] = "true"
     return {"ops": ops, "shape": shape, "deleted": deleted, "merges": merges, "geometry": geometry,
             "default": rng.choice([None, None, ["defPatch", "wall"], ["rest", "patch"]]), "modify": modify,
-            "settings": settings, "vtk": rng.random() < 0.5, "thin_gap": thin_gap, "shape_del_frac": rng.random(), "delete_shape_op": rng.random() < 0.3,
+            "settings": settings, "vtk": rng.random() < 0.5, "thin_gap": thin_gap, "shape_del_frac": rng.random(), "geometry_twice": rng.random() < 0.3, "delete_shape_op": rng.random() < 0.3,
             "pre_history": rng.choice([None, None, "assemble", "clear", "clear", "backport"]), "late_delete": rng.random() < 0.6}
 
 
@@ -193,7 +193,9 @@ def build(case, cb):
         elif k == "box":
             o = cb.Box(*op["args"])
         elif k == "extrude":
-            o = cb.Extrude(cb.Face(op["args"][0]), op["args"][1])
+            b0, b1 = np.array(op["args"][0][0]), np.array(op["args"][0][1])
+            bulge = np.cross(b1 - b0, np.array(op["args"][1])) * 0.15
+            o = cb.Extrude(cb.Face(op["args"][0], [cb.Arc(list((b0 + b1) / 2 + bulge)), None, None, None]), op["args"][1])
         else:
             o = cb.Revolve(cb.Face(op["args"][0]), *op["args"][1:])
         for a in range(3):
@@ -250,6 +252,9 @@ def build(case, cb):
     for k, v in case["settings"].items():
         mesh.settings[k] = v
     if case["geometry"]:
+        if case.get("geometry_twice"):
+            # the same names declared before with other contents: the later declaration replaces the earlier one
+            mesh.add_geometry({name: ["type sphere", "origin (9 9 9)", "radius 1"] for name in list(case["geometry"])[:2]})
         mesh.add_geometry(case["geometry"])
     # optional life-cycle prefix: the written file must not depend on it
     if case.get("pre_history") == "backport":
@@ -503,6 +508,27 @@ def run_case(ctx, case):
             if lb not in geo_keys:
                 ctx.violation("projected-edge-label-without-geometry", f"edge {e['a']} {e['b']} -> {e['labels']}")
                 return
+    # the curved edges these programs define: Extrude carries an Arc on edge 0-1 (copied to 4-5), Revolve four angle arcs
+    arc_pairs = {frozenset((e["a"], e["b"])) for e in parsed["edges"] if e["kind"] == "arc"}
+    for i, lv in enumerate(live):
+        op = lv["op"]
+        if op is None or op["kind"] not in ("extrude", "revolve"):
+            continue
+        idx = parsed["blocks"][i]["idx"]
+        want_pairs = [(0, 1), (4, 5)] if op["kind"] == "extrude" else [(0, 4), (1, 5), (2, 6), (3, 7)]
+        ctx.count("judged:curved-edges-of-extrude/revolve-present")
+        # an edge the program projected is a `project` edge instead (the later definition replaces the arc)
+        projected = {frozenset((e[0], e[1])) for e in op["proj_edges"]}
+        for ps in op["proj_sides"]:
+            if ps["edges"]:
+                projected |= {frozenset(e) for e in hexconv.EDGES if set(e) <= hexconv.SIDES[ps["side"]]}
+        for c1, c2 in want_pairs:
+            if frozenset((c1, c2)) in projected:
+                continue
+            if frozenset((idx[c1], idx[c2])) not in arc_pairs:
+                ctx.violation("curved-edge-missing", f"{op['kind']} operation {i}: no arc entry between corners {c1} and {c2} "
+                                                     f"(vertices {idx[c1]}, {idx[c2]}); pre-history {case.get('pre_history')}")
+                return
     # projected corners of operations that share no vertex with others: labels as declared
     vert_users = {}
     for i, blk in enumerate(parsed["blocks"]):
@@ -527,6 +553,11 @@ def run_case(ctx, case):
 
     # ---- VTK ----------------------------------------------------------------------------------------
     if vtk:
+        import os
+
+        if not os.path.exists(vtk):
+            ctx.violation("vtk-not-written", f"write(path, debug_path) left no debug file (pre-history {case.get('pre_history')})")
+            return
         vt = foamdict.parse_vtk(util.read_text(vtk))
         util.rm(vtk)
         if len(vt["points"]) != nv or len(vt["cells"]) != len(parsed["blocks"]):
